@@ -5,6 +5,8 @@ package c41
 // so that most state-changing operations are accepted and the rest exercise the refusal and error
 // paths.  All random choices come from c.Rng.
 
+import "sort"
+
 type gview struct {
 	admin   int
 	former  []int         // former admins
@@ -65,30 +67,86 @@ func (r *runner) genHistory(stub bool) *history {
 		}
 		return rs[rng.Intn(len(rs))]
 	}
-	// scripted opening (most histories): admin, two roles with functions, a few holders
-	var script []opRec
+	// scripted opening (most histories): admin, two roles with functions, two distinct holders of
+	// r0 and one of r1.  Scripted calls marked exact run at clock+adv with a correct identity proof.
+	type sop struct {
+		op    opRec
+		adv   uint64
+		exact bool
+	}
+	var script []sop
 	if rng.Intn(5) > 0 {
 		a := regular()
-		script = []opRec{
-			{Kind: "init", A: a},
-			{Kind: "funcs", A: a, Role: 0, Fns: []int{0, 1}},
-			{Kind: "funcs", A: a, Role: 1, Fns: []int{2}},
-			{Kind: "ids", A: a, Role: 0, Persons: []int{regular(), regular()}},
-			{Kind: "ids", A: a, Role: 1, Persons: []int{regular()}},
+		a1 := regular()
+		a2 := (a1 + 1 + rng.Intn(4)) % 5
+		script = []sop{
+			{op: opRec{Kind: "init", A: a}},
+			{op: opRec{Kind: "funcs", A: a, Role: 0, Fns: []int{0, 1}}},
+			{op: opRec{Kind: "funcs", A: a, Role: 1, Fns: []int{2}}},
+			{op: opRec{Kind: "ids", A: a, Role: 0, Persons: []int{a1, a2}}},
+			{op: opRec{Kind: "ids", A: a, Role: 1, Persons: []int{regular()}}},
+		}
+		// several delegators, one delegate: a1 delegates r0 to cc, the delegation runs out
+		// un-withdrawn, a2 delegates r0 to cc, then the two delegators withdraw in some order
+		if rng.Intn(2) == 0 {
+			cc := regular()
+			for cc == a1 || cc == a2 {
+				cc = regular()
+			}
+			p := uint64(3 + rng.Intn(18))
+			ex := func(adv uint64, o opRec) sop { return sop{op: o, adv: adv, exact: true} }
+			del := func(adv uint64, from int, period uint64) sop {
+				return ex(adv, opRec{Kind: "delegate", A: from, B: cc, Role: 0, Period: period, Level: 1})
+			}
+			wd := func(adv uint64, from int) sop { return ex(adv, opRec{Kind: "withdraw", A: from, B: cc, Role: 0}) }
+			vf := func(adv uint64) sop { return ex(adv, opRec{Kind: "verify", A: cc, Fn: rng.Intn(2)}) }
+			script = append(script, del(1, a1, p), vf(1), del(p+uint64(rng.Intn(4)), a2, 40+uint64(rng.Intn(20))), vf(1))
+			switch rng.Intn(4) {
+			case 0:
+				script = append(script, wd(1+uint64(rng.Intn(3)), a1), vf(1), wd(1, a2), vf(1))
+			case 1:
+				script = append(script, wd(1+uint64(rng.Intn(3)), a2), vf(1), wd(1, a1), vf(1))
+			case 2:
+				script = append(script, wd(1+uint64(rng.Intn(3)), a1), vf(1))
+			default:
+				script = append(script, wd(1, a2), del(1, a1, 25), vf(1), wd(1, a2), vf(1), wd(1, a1), vf(1))
+			}
+		}
+		if n < len(script)+6 {
+			n = len(script) + 6
 		}
 	}
-	for len(h.Ops) < n {
+	closing := false
+	for {
+		if len(script) == 0 && len(h.Ops) >= n {
+			if closing {
+				break
+			}
+			closing = true
+			for _, o := range r.closingScript() {
+				script = append(script, sop{op: o, adv: 1, exact: true})
+			}
+			if len(script) == 0 {
+				break
+			}
+		}
 		// time: a mostly monotone clock with excursions to expiry boundaries, to the end of the
 		// admin tokens' validity (2100) and slightly backwards
-		clock += uint64(rng.Intn(25))
-		if rng.Intn(12) == 0 {
-			clock += uint64(rng.Intn(120))
+		exact := len(script) > 0 && script[0].exact
+		if exact {
+			clock += script[0].adv
+		} else {
+			clock += uint64(rng.Intn(25))
+			if rng.Intn(12) == 0 {
+				clock += uint64(rng.Intn(120))
+			}
 		}
 		if clock > maxU32 {
 			clock = maxU32 - uint64(rng.Intn(5))
 		}
 		now := clock
 		switch p := rng.Intn(100); {
+		case exact:
 		case p < 14 && len(r.expiries) > 0:
 			e := r.expiries[rng.Intn(len(r.expiries))]
 			now = e + uint64(rng.Intn(3)) - 1
@@ -112,9 +170,9 @@ func (r *runner) genHistory(stub bool) *history {
 		var o opRec
 		actor := -1 // the identity whose proof the operation needs
 		if len(script) > 0 {
-			o = script[0]
+			o = script[0].op
 			script = script[1:]
-			ci = 0
+			ci = o.C
 			actor = o.A
 			if o.Kind == "init" {
 				actor = -1
@@ -201,6 +259,16 @@ func (r *runner) genHistory(stub bool) *history {
 					o.A = hs[rng.Intn(len(hs))]
 				}
 				o.B = anyID()
+				// sometimes another holder of the role delegates to someone who already was a delegate
+				if len(g.delegs) > 0 && rng.Intn(4) == 0 {
+					d := g.delegs[rng.Intn(len(g.delegs))]
+					o.B, o.Role = d[1], d[2]
+					for _, x := range g.holders[o.Role] {
+						if x != d[0] && rng.Intn(2) == 0 {
+							o.A = x
+						}
+					}
+				}
 				// sometimes a delegate tries to hand its delegated role on
 				if len(g.delegs) > 0 && rng.Intn(7) == 0 {
 					d := g.delegs[rng.Intn(len(g.delegs))]
@@ -274,12 +342,13 @@ func (r *runner) genHistory(stub bool) *history {
 			k := liveKey(actor)
 			if k >= 0 {
 				o.KeyNo = uint64(k + 1)
-				if rng.Intn(14) > 0 {
+				if exact || rng.Intn(14) > 0 {
 					o.Signers = append(o.Signers, [2]int{actor, k})
 				}
 			}
 		}
 		switch q := rng.Intn(50); {
+		case exact:
 		case q == 0:
 			o.KeyNo = 0
 		case q == 1:
@@ -292,7 +361,7 @@ func (r *runner) genHistory(stub bool) *history {
 			o.KeyNo = 1 // revoked key
 			o.Signers = append(o.Signers, [2]int{2, 0})
 		}
-		if rng.Intn(6) == 0 { // an unrelated co-signer
+		if !exact && rng.Intn(6) == 0 { // an unrelated co-signer
 			i := regular()
 			o.Signers = append(o.Signers, [2]int{i, rng.Intn(len(w.ids[i].keys))})
 		}
@@ -304,6 +373,7 @@ func (r *runner) genHistory(stub bool) *history {
 					o.Stub[i] = 0
 				}
 				switch q := rng.Intn(14); {
+				case exact:
 				case q == 0:
 					o.Stub[i] = 1
 				case q == 1:
@@ -333,4 +403,36 @@ func (r *runner) genHistory(stub bool) *history {
 	}
 	r.finish(h, true)
 	return h
+}
+
+// closingScript: for every delegation the ledger still records, another holder of the role asks
+// for its withdrawal (must be refused), then its delegator does (must be accepted).
+func (r *runner) closingScript() (ops []opRec) {
+	idx := map[string]int{}
+	for i, id := range r.w.ids {
+		idx[string(id.id)] = i
+	}
+	ridx := map[string]int{}
+	for i, ro := range r.w.roles {
+		ridx[string(ro)] = i
+	}
+	for ci := 0; ci < 2; ci++ {
+		sp := r.spec[ci]
+		var ks []lkey
+		for k := range sp.ledger {
+			ks = append(ks, k)
+		}
+		sort.Slice(ks, func(i, j int) bool { return ks[i].to+"|"+ks[i].role < ks[j].to+"|"+ks[j].role })
+		for _, k := range ks {
+			for i := 0; i < 5; i++ {
+				x := string(r.w.ids[i].id)
+				if x != k.from && sp.stored[x][k.role] {
+					ops = append(ops, opRec{Kind: "withdraw", C: ci, A: i, B: idx[k.to], Role: ridx[k.role]})
+					break
+				}
+			}
+			ops = append(ops, opRec{Kind: "withdraw", C: ci, A: idx[k.from], B: idx[k.to], Role: ridx[k.role]})
+		}
+	}
+	return
 }
